@@ -202,6 +202,17 @@ def rule_a(prog, rep):
         sp = insert_spec(*inp)
         row = f'cur={inp[0]},new={inp[1]},v={inp[2]},force={inp[3]}'
         if sp is None:
+            # forced (internal) insert: always accepted, stores the kind it was given; the bookkeeping components follow the
+            # same formula (value_existed feeds Store::len, value_changed the notifications). The stored version is reported
+            # in the evidence, not judged.
+            existed = inp[0] != 'None'
+            want_f = ('Ok', existed, 'true' if inp[0] == 'None' else 'c!=x', inp[1])
+            got_f = (out[0], out[1], out[2], out[3][0]) if out and out[0] == 'Ok' and len(out) == 4 else out
+            if got_f == want_f:
+                rep.ok('C02.a', row, loc(f, m), f'-> {out}')
+            else:
+                rep.violation('C02.a', row, loc(f, m), f'Store::insert forced row ({row}) -> {out}', key=f'C02.a/insert/{row}',
+                              expected=str(want_f) + ' (accepted; existed <=> a value was present; changed <=> values differ)')
             continue
         n += 1
         if sp == out:
